@@ -40,6 +40,11 @@ func (h *descHolder) setDesc(d DescJ, popts thrift.Options) {
 	normDesc(&d)
 	d.To = d.From
 	d = reachable(d)
+	idlDesc := d
+	if !popts.UseDefaultValue {
+		// without UseDefaultValue the descriptor carries no defaults: that is the descriptor the spec must see
+		d = stripDefaults(d)
+	}
 	key, _ := json.Marshal(d)
 	k := string(key) + fmt.Sprint(popts)
 	if k == h.lastDesc {
@@ -47,7 +52,7 @@ func (h *descHolder) setDesc(d DescJ, popts thrift.Options) {
 	}
 	h.lastDesc = k
 	h.cur = d
-	idl := printIDL(d)
+	idl := printIDL(idlDesc)
 	svc, err := popts.NewDescritorFromContent(context.Background(), "c.thrift", idl, nil, false)
 	if err != nil {
 		die("IDL printed by the harness was rejected: %v\n%s", err, idl)
@@ -178,14 +183,18 @@ func convScalar(r *rand.Rand, t byte, finiteOnly bool) *Val {
 		}
 		alphabet := []string{"\"", "\\", "\n", "\t", "\x00", "\x1f", "\x7f", "/", "<", "é", " ", " ", "😀", "a", "b", " ", "\xff", "\xc3", "\xed\xa0\x80"}
 		var l int
-		switch r.Intn(6) {
-		case 0:
+		switch r.Intn(12) {
+		case 0, 1:
 			l = 15 + r.Intn(3)
-		case 1:
+		case 2, 3:
 			l = 31 + r.Intn(3)
-		case 2:
-			l = 4095 + r.Intn(3)
-		case 3:
+		case 4:
+			if r.Intn(6) == 0 {
+				l = 4095 + r.Intn(3) // rare: long values are slow to judge in TLC
+			} else {
+				l = 127 + r.Intn(3)
+			}
+		case 5:
 			l = 63 + r.Intn(3)
 		default:
 			l = r.Intn(12)
@@ -316,4 +325,18 @@ func c03Main(args map[string]string) {
 		c.genRandom(int64(atoi(args["seed"])), idx, n)
 	}
 	fmt.Printf("c03 cases=%d events=%d\n", c.cases, out.n)
+}
+
+func stripDefaults(d DescJ) DescJ {
+	out := DescJ{Structs: map[string][]FldJ{}, From: d.From, To: d.To}
+	for n, fs := range d.Structs {
+		nf := make([]FldJ, len(fs))
+		copy(nf, fs)
+		for i := range nf {
+			nf[i].Hasd = false
+			nf[i].Dflt = SubV{B: B{}}
+		}
+		out.Structs[n] = nf
+	}
+	return out
 }
